@@ -183,3 +183,152 @@ def _align_axes_task():
 
 def tasks():
     return [_task(False), _task(True), _align_axes_task()]
+
+
+# ---------------------------------------------------------------------------------------------------------------
+# higher rank: several contracted pairs (the sub-sector is a tuple of charges), free axes on either side
+
+
+def _mk_nd(it, name, nd):
+    from .dims import BLK as NBLK
+    from .dims import KT
+    from .linalg_bonds import mk_index
+
+    cls = it.get_class("abelian_core", "AbelianArray")
+    x = SymObj(cls, tag=name)
+    K = KT(nd)
+    bl = SymDict(z3.Const(name + "_has", z3.ArraySort(K.sort(), z3.BoolSort())), z3.Const(name + "_val", z3.ArraySort(K.sort(), NBLK.sort())), K, NBLK, name + "_blocks")
+    idx = tuple(mk_index(it, f"{name}_i{i}") for i in range(nd))
+    from .util import sym_obj
+
+    x.fields.update({"_blocks": bl, "_indices": idx, "_symmetry": sym_obj(it, "U1"), "_charge": SV(it.ctx.fresh(name + "_charge", TInt), TInt)})
+    s = z3.Const("s!valid" + name, K.sort())
+    it.ctx.assume(z3.ForAll([s], z3.Implies(z3.Select(bl.has, s), z3.And(*[z3.Select(idx[i].fields["_chargemap"].has, K.get(s, f"f{i}")) for i in range(nd)]))))
+    return x, bl, idx, K
+
+
+def _task_nd(na, nb, axes_a, axes_b, inplace):
+    from .dims import BLK as NBLK
+    from .dims import KT
+
+    def body(it):
+        install(it)
+        a, abl, aidx, KA = _mk_nd(it, "a", na)
+        b, bbl, bidx, KB = _mk_nd(it, "b", nb)
+        A0, B0 = (abl.has, abl.val), (bbl.has, bbl.val)
+        CMA = [(ix.fields["_chargemap"].has, ix.fields["_chargemap"].val) for ix in aidx]
+        CMB = [(ix.fields["_chargemap"].has, ix.fields["_chargemap"].val) for ix in bidx]
+        c = z3.Int("c!al")
+
+        def sub_a(s):
+            return [KA.get(s, f"f{ax}") for ax in axes_a]
+
+        def sub_b(s):
+            return [KB.get(s, f"f{ax}") for ax in axes_b]
+
+        ta, tb = z3.Const("t!ala", KA.sort()), z3.Const("t!alb", KB.sort())
+
+        def kept_a(sec):
+            return z3.And(z3.Select(A0[0], sec), z3.Exists([tb], z3.And(z3.Select(B0[0], tb), *[p == q for p, q in zip(sub_a(sec), sub_b(tb))])))
+
+        def kept_b(sec):
+            return z3.And(z3.Select(B0[0], sec), z3.Exists([ta], z3.And(z3.Select(A0[0], ta), *[p == q for p, q in zip(sub_a(ta), sub_b(sec))])))
+
+        def mk_inv(which):
+            X0, K, kept, CM, nd = (A0, KA, kept_a, CMA, na) if which == "a" else (B0, KB, kept_b, CMB, nb)
+
+            def inv(it_, env, g):
+                vis = g["vis"]
+                nbk = env.vars["new_blocks_" + which]
+                cd = env.vars["charges_drop"]
+                if isinstance(nbk, dict):
+                    assert not nbk
+                    nh, nv = (lambda q: z3.BoolVal(False)), (lambda q: z3.Const("dflt_nblk", NBLK.sort()))
+                else:
+                    nh, nv = (lambda q: z3.Select(nbk.has, q)), (lambda q: z3.Select(nbk.val, q))
+                u = z3.Const("u!inv" + which, K.sort())
+                out = [
+                    ("kept_blocks_are_visited_aligned_sectors", z3.ForAll([u], nh(u) == z3.And(z3.Select(vis, u), kept(u)))),
+                    ("kept_blocks_are_the_same_objects", z3.ForAll([u], z3.Implies(nh(u), nv(u) == z3.Select(X0[1], u)))),
+                ]
+                for ax in range(nd):
+                    used = z3.Exists([u], z3.And(z3.Select(vis, u), kept(u), K.get(u, f"f{ax}") == c))
+                    out.append((f"axis{ax}_droppable_charges_are_those_not_used_so_far", z3.ForAll([c], z3.Select(cd[ax].has, c) == z3.And(z3.Select(CM[ax][0], c), z3.Not(used)))))
+                return out
+
+            return inv
+
+        it.loop_specs[(Q, 0)] = LoopSpec(carried={"new_blocks_a": ("dict", KA, NBLK)}, cells=[(lambda env, i=i: env.vars["charges_drop"][i]) for i in range(na)], invariant=mk_inv("a"))
+        it.loop_specs[(Q, 2)] = LoopSpec(carried={"new_blocks_b": ("dict", KB, NBLK)}, cells=[(lambda env, i=i: env.vars["charges_drop"][i]) for i in range(nb)], invariant=mk_inv("b"))
+        fn = it.module_lookup("abelian_core", "drop_misaligned_sectors")
+
+        def check_operand(res, orig, X0, K, kept, CM, idx0, nd, nm):
+            out = []
+            rb = res.fields["_blocks"]
+            u = z3.Const("u!post" + nm, K.sort())
+            out.append((f"{nm}_keeps_exactly_the_aligned_sectors", z3.ForAll([u], z3.Select(rb.has, u) == kept(u))))
+            out.append((f"{nm}_blocks_are_the_same_objects", z3.ForAll([u], z3.Implies(kept(u), z3.Select(rb.val, u) == z3.Select(X0[1], u)))))
+            inds = res.fields["_indices"]
+            ok = isinstance(inds, tuple) and len(inds) == nd
+            out.append((f"{nm}_rank_kept", ok))
+            if not ok:
+                return out
+            for ax in range(nd):
+                cm = inds[ax].fields["_chargemap"]
+                used = z3.Exists([u], z3.And(kept(u), K.get(u, f"f{ax}") == c))
+                some_unused = z3.Exists([c], z3.And(z3.Select(CM[ax][0], c), z3.Not(used)))
+                if inds[ax] is idx0[ax]:
+                    out.append((f"{nm}_axis{ax}_same_index_object_only_if_every_charge_is_used", z3.Not(some_unused)))
+                else:
+                    out.append((f"{nm}_axis{ax}_new_index_only_if_some_charge_unused", some_unused))
+                    out.append((f"{nm}_axis{ax}_table_keeps_exactly_used_charges", z3.ForAll([c], z3.Select(cm.has, c) == z3.And(z3.Select(CM[ax][0], c), used))))
+                    out.append((f"{nm}_axis{ax}_sizes_unchanged", z3.ForAll([c], z3.Implies(z3.Select(cm.has, c), z3.Select(cm.val, c) == z3.Select(CM[ax][1], c)))))
+                    d_new, d_old = inds[ax].fields["_dual"], idx0[ax].fields["_dual"]
+                    out.append((f"{nm}_axis{ax}_direction_unchanged", d_new.t == d_old.t if isinstance(d_new, SV) else d_new is d_old))
+            out.append((f"{nm}_charge_kept", res.fields["_charge"] is orig.fields["_charge"] or res.fields["_charge"].t == orig.fields["_charge"].t))
+            return out
+
+        def post(r):
+            if not (isinstance(r, tuple) and len(r) == 2 and all(isinstance(x, SymObj) for x in r)):
+                return [("returns_pair_of_arrays", False)]
+            ra, rbb = r
+            out = []
+            if inplace:
+                out += [("inplace_returns_the_operands", ra is a and rbb is b)]
+            else:
+                out += [
+                    ("results_are_new_arrays", ra is not a and rbb is not b and ra is not rbb),
+                    ("operand_a_blocks_untouched", z3.And(abl.has == A0[0], abl.val == A0[1]) if a.fields["_blocks"] is abl else False),
+                    ("operand_b_blocks_untouched", z3.And(bbl.has == B0[0], bbl.val == B0[1]) if b.fields["_blocks"] is bbl else False),
+                    ("operand_indices_untouched", a.fields["_indices"] == aidx and b.fields["_indices"] == bidx),
+                    ("result_block_dicts_not_shared", ra.fields["_blocks"] is not abl and rbb.fields["_blocks"] is not bbl),
+                ]
+            out += check_operand(ra, a, A0, KA, kept_a, CMA, aidx, na, "a")
+            out += check_operand(rbb, b, B0, KB, kept_b, CMB, bidx, nb, "b")
+            return out
+
+        check_call(it, f"drop_misaligned_sectors[ranks={na},{nb},axes={axes_a}/{axes_b},inplace={inplace}]".replace(" ", ""), fn, [a, b, axes_a, axes_b], {"inplace": inplace}, post=post)
+
+    return Task(
+        f"C06.drop_misaligned_sectors.ranks_{na}_{nb}.axes_{'_'.join(map(str, axes_a))}__{'_'.join(map(str, axes_b))}.inplace_{inplace}",
+        ["C06", "C02"],
+        [Q, "abelian_core.BlockIndex.drop_charges", "abelian_core.BlockIndex.copy_with", "abelian_core.AbelianArray.copy_with", "abelian_core.AbelianArray.modify"],
+        body,
+        assumes=["dict / set comprehension semantics (A-builtins); BlockIndex tables are sorted copies (order abstracted)"],
+        bounded_rank=f"operands of rank {na} and {nb}, contracted pairs {axes_a} / {axes_b}; blocks, charges, sizes unbounded",
+        timeout_ms=60000,
+    )
+
+
+_tasks_rank2 = tasks
+
+
+def tasks():  # noqa: F811
+    out = _tasks_rank2()
+    from pyvc.task import thorough
+
+    out.append(_task_nd(3, 2, (0, 2), (1, 0), False))
+    if thorough():
+        # 82 paths each (every combination of "some charge dropped / none dropped" per index): minutes, not seconds
+        out += [_task_nd(3, 3, (1, 2), (0, 1), False), _task_nd(3, 3, (2, 0), (1, 0), True)]
+    return out
